@@ -1,6 +1,6 @@
 import McpModel.Sessions.Obs
 /-!
-E7 — the typed **property monitor** of C11.
+E7 — the typed **property monitor** of C11 (and, clause group `close`, of the session half of C05).
 
 The C11 clauses as a total, decidable function on the *implementation's* observations (`Obs`), derived
 from an abstract session table that does not use the model's state: a session is a name, an owner, the
@@ -127,6 +127,12 @@ inductive SrvClause where
   | tableKeeps (n : Name)
 deriving DecidableEq, Repr
 
+/-- (6) closing a session terminates and leaves nothing behind (C05, and C11 "closed and forgotten") -/
+inductive CloseClause where
+  | stuck (n : Name)       -- `Close` has begun, none of the session's handlers is running, yet it is still in the table
+  | timerLeft (n : Name)   -- the idle timer of a session that has left the table is armed
+deriving DecidableEq, Repr
+
 inductive Clause where
   | ans (c : AnsClause)
   | log (c : LogClause)
@@ -135,6 +141,7 @@ inductive Clause where
   | key (c : KeyClause)
   | gone (c : GoneClause)
   | srv (c : SrvClause)
+  | close (c : CloseClause)
   | noId                      -- (5e) creating initialize answered without a session id
   | zombieThen (c : Clause)   -- F20: a published dead session is in the table; `c` is what it broke now
 deriving DecidableEq, Repr
@@ -143,6 +150,7 @@ deriving DecidableEq, Repr
 inductive EndClause where
   | left             -- requests or sessions left after every session was closed
   | zombieLeft       -- … and a session published after its close (F20) is among the causes
+  | timersLeft (n : Nat)   -- everything is closed and gone, but idle timers of closed sessions are still armed
 deriving DecidableEq, Repr
 
 /-! ## reading a record -/
@@ -162,6 +170,7 @@ def Op.req : Op → Option Req
   | .get r u => some { verb := .get, ref := r, user := u }
   | .delete r u => some { verb := .delete, ref := r, user := u }
   | .other r u => some { verb := .other, ref := r, user := u }
+  | .postb r u => some { verb := .post, ref := r, user := u, kind := some .ping }
   | _ => none
 
 def reqRacy : Option Req → Bool
@@ -216,13 +225,14 @@ def tagOf (m : Mon) : Op → Tag
   | .postx _ .slow => .p (m.nslow + 1)
   | .delete _ _ => .d (m.nasync + 1)
   | .close _ => .c (m.nasync + 1)
+  | .postb _ _ => .u (m.nasync + 1)
   | _ => .raw ""
 
 /-- The harness's counters after this operation. -/
 def countersAfter (m : Mon) (op : Op) (st : St) : Nat × Nat :=
   match op with
   | .post _ _ .slow | .postx _ .slow => (m.nslow + 1, m.nasync)
-  | .post _ _ _ | .postx _ _ | .get _ _ | .delete _ _ | .other _ _ => (m.nslow, m.nasync + 1)
+  | .post _ _ _ | .postx _ _ | .get _ _ | .delete _ _ | .other _ _ | .postb _ _ => (m.nslow, m.nasync + 1)
   | .close _ => if st == .noop then (m.nslow, m.nasync) else (m.nslow, m.nasync + 1)
   | _ => (m.nslow, m.nasync)
 
@@ -244,6 +254,17 @@ def bookAnswer (cfg : Cfg) (fl : Faults) (now : Nat) (tag : Tag) (tbl : List MSe
         if entitledLive && (st.accepted2xx || openRefusal) then
           if st == .pending then (monUpd tbl n (fun e => { e with posts := e.posts + 1 }), reg n)
           else (monUpd tbl n (fun e => if e.posts == 0 then { e with idleSince := now } else e), pend)
+        else (tbl, pend)
+    | .postb ref u =>
+      -- a POST whose body is still on its way is in progress from the arrival of its headers (booked for
+      -- every known session the user is entitled to: for one that is going away the count is never read)
+      match ref.name with
+      | none => (tbl, pend)
+      | some n =>
+        let admitted := match monFind tbl n with
+          | some e => entitled e.owner u
+          | none => false
+        if admitted && st == .pending then (monUpd tbl n (fun e => { e with posts := e.posts + 1 }), reg n)
         else (tbl, pend)
     | .delete ref u =>
       match ref.name with
@@ -290,6 +311,8 @@ def bookDone1 (now : Nat) (acc : List MSess × List (Tag × Name)) (c : Tag × N
     let rest := acc.2.filter (·.1 != c.1)
     match c.1 with
     | .p _ =>
+      (monUpd acc.1 nm (fun e => if e.posts ≤ 1 then { e with posts := 0, idleSince := now } else { e with posts := e.posts - 1 }), rest)
+    | .u _ =>
       (monUpd acc.1 nm (fun e => if e.posts ≤ 1 then { e with posts := 0, idleSince := now } else { e with posts := e.posts - 1 }), rest)
     | _ => (monUpd acc.1 nm (fun e => { e with life := .dead }), rest)
 
@@ -406,6 +429,20 @@ def chkLog (cfg : Cfg) (req : Option Req) (st : St) (log : List LogEnt) : Option
         | none => none) log
   | none => if !log.isEmpty then some .noRequest else none
 
+/-- (2') the body of a POST that began earlier is complete: what it carries reaches only the session the POST
+was admitted to (the session named by the monitor's entry of the request `u<n>`; a POST that was not booked —
+its session was already going away — reaches no handler).  The user a handler sees is not judged here. -/
+def chkBodyLog (pend : List (Tag × Name)) (n : Nat) (log : List LogEnt) : Option LogClause :=
+  match pend.find? (·.1 == Tag.u n) with
+  | some (_, nm) => firstSome (fun (l : LogEnt) => if l.sess != nm then some LogClause.misrouted else none) log
+  | none => if !log.isEmpty then some .noRequest else none
+
+/-- the handler invocation log of one record -/
+def chkLogOp (cfg : Cfg) (pend : List (Tag × Name)) (op : Op) (st : St) (log : List LogEnt) : Option LogClause :=
+  match op with
+  | .body n _ => chkBodyLog pend n log
+  | _ => chkLog cfg op.req st log
+
 /-- (3) minting. `tbl` is the abstract table at the instant of the request. -/
 def chkMint (cfg : Cfg) (tbl : List MSess) (req : Option Req) (st : St) (hdr : Option Name) : Option MintClause :=
   match hdr with
@@ -449,12 +486,26 @@ def chkNoId (cfg : Cfg) (req : Option Req) (st : St) (hdr : Option Name) : Bool 
   | some r => r.verb == .post && r.ref == .absent && r.kind == some .init && !cfg.stateless && st.accepted2xx && hdr.isNone
   | none => false
 
+/-- (6) C05 / C11: a session whose `Close` has begun and none of whose handlers is running must be closed
+(gone from the table) at quiescence; a session that has left the table has no armed idle timer. -/
+def chkClose (map : List MapEnt) (stale : List Name) : Option CloseClause :=
+  firstViol
+    (firstSome (fun (e : MapEnt) => if e.closing && e.busy == 0 then some (CloseClause.stuck e.name) else none) map)
+    (firstSome (fun n => some (CloseClause.timerLeft n)) stale)
+
 /-! ## one record -/
 
 def chkAnswerO (cfg : Cfg) (fl : Faults) (tbl : List MSess) (req : Option Req) (st : St) : Option AnsClause :=
   match req with
   | some r => chkAnswer cfg fl tbl r st
   | none => none
+
+/-- (1) per operation: a POST of which only the headers have arrived and that is not answered yet (`postb`
+answered `pending`) is judged by nothing but the bookkeeping — whom it addresses shows when it completes. -/
+def chkAnswerOp (cfg : Cfg) (fl : Faults) (tbl : List MSess) (op : Op) (st : St) : Option AnsClause :=
+  match op with
+  | .postb _ _ => if st == .pending then none else chkAnswerO cfg fl tbl op.req st
+  | _ => chkAnswerO cfg fl tbl op.req st
 
 /-- the environment's script after this operation -/
 def faultsAfter (m : Mon) (op : Op) (st : St) : Faults :=
@@ -479,8 +530,8 @@ def monStep (cfg : Cfg) (m : Mon) (op : Op) (o : Obs) : StepOut :=
   let fl := effFaults cfg m
   -- idle sessions die when their timeout has elapsed
   let tbl0 := m.tbl.map (expire cfg now)
-  let v1 := (chkAnswerO cfg fl tbl0 req st).map Clause.ans
-  let v2 := (chkLog cfg req st o.log).map Clause.log
+  let v1 := (chkAnswerOp cfg fl tbl0 op st).map Clause.ans
+  let v2 := (chkLogOp cfg m.pend op st o.log).map Clause.log
   let v3 := (chkMint cfg tbl0 req st o.hdr).map Clause.mint
   let ba := bookAnswer cfg fl now (tagOf m op) tbl0 m.pend op st
   let bs := bookSlots ba.1 ba.2 m.run op st
@@ -496,11 +547,12 @@ def monStep (cfg : Cfg) (m : Mon) (op : Op) (o : Obs) : StepOut :=
   let tbl5 := noteFailedInit now (reqOwner req) o.hdr tbl4
   let v5d := (chkSrv cfg names o.srv).map Clause.srv
   let v5e := if chkNoId cfg req st o.hdr then some Clause.noId else none
+  let v6 := (chkClose o.map o.stale).map Clause.close
   -- F20: once a session that the server closed during its creation sits in the handler's table, every
   -- clause it breaks afterwards is the same defect
   let zombies := m.zombies ++ (if reqRacy req then names.filter (fun n => (monFind tbl2 n).isNone) else [])
   let viol := firstViol v1 (firstViol v2 (firstViol v3 (firstViol (v5a.map Clause.tbl)
-    (firstViol v5b (firstViol v5c (firstViol v5d v5e))))))
+    (firstViol v5b (firstViol v5c (firstViol v5d (firstViol v5e v6)))))))
   let viol := if names.any zombies.contains then
       viol.map zombieWrap
     else viol
@@ -517,10 +569,13 @@ structure EndObs where
   stuck : Nat
   map : Nat
   srv : Nat
+  timers : Nat := 0     -- idle timers (of sessions that are all closed by now) still armed
 deriving DecidableEq, Repr
 
 def monEnd (m : Mon) (o : Option EndObs) : Option EndClause :=
-  if o == some { stuck := 0, map := 0, srv := 0 } then none
+  if o == some { stuck := 0, map := 0, srv := 0, timers := 0 } then none
+  else if (o.map fun e => e.stuck == 0 && e.map == 0 && e.srv == 0) == some true then
+    some (.timersLeft ((o.map (·.timers)).getD 0))
   else if !m.zombies.isEmpty then some .zombieLeft
   else some .left
 
